@@ -677,6 +677,7 @@ def c24(ck, F, tier):
     ck.rule("ESCAPE-AGREE", "writer and reader of the _xHHHH_ escape use the same character class", floor=2)
     guarded(ck, io.escape_agree, F)
     guarded(ck, io.part_names_positional, F)
+    guarded(ck, io.flag_attribute_pairing, F)
 
 
 PROPS = {"C11": c11, "C25": c25, "C08": c08, "C24": c24, "C07": c07, "C06": c06, "C18": c18, "C32": c32, "C30": c30, "C27": c27, "C31": c31, "C33": c33, "C12": c12, "C13": c13, "C14": c14, "C15": c15, "C16": c16, "C09": c09, "C22": c22, "C34": c34, "C21": c21, "C05": c05, "C28": c28, "C10": c10, "C29": c29, "C17": c17, "C01": c01, "C02": c02, "C03": c03, "C04": c04, "C23": c23, "C26": c26}
